@@ -41,6 +41,10 @@ type C01 struct {
 	Banner      []peer.Tok     `json:"banner"`
 	Cmds        []C01Cmd       `json:"cmds"`
 	Noise       []string       `json:"noise"`
+	// SlowEcho: the device takes SlowEchoUS (more than half of the operation timeout, less than
+	// all of it) before it starts echoing command number SlowEchoAt
+	SlowEchoAt int   `json:"slow_echo_at,omitempty"`
+	SlowEchoUS int64 `json:"slow_echo_us,omitempty"`
 	NoisePct    int            `json:"noise_pct"`
 	NL          string         `json:"nl"`
 	DevSeed     uint64         `json:"dev_seed"`
@@ -124,6 +128,12 @@ func genC01(seed uint64, run int, tier string) Scenario {
 		sc.NoisePct = pick(r, 2, 10, 30)
 	}
 	sc.Net = genNet(r, rd, kernel.Stream(rs, "netseed").Uint64())
+	if !sc.Network && r.IntN(16) == 0 {
+		// one command whose echo is a long time coming: well over half of the operation timeout
+		// (20 000 read delays), well under all of it
+		sc.SlowEchoAt = r.IntN(n)
+		sc.SlowEchoUS = sc.ReadDelayUS * int64(between(r, 11000, 17000))
+	}
 	sc.Class = "generic"
 	if sc.Network {
 		sc.Class = "network"
@@ -143,6 +153,9 @@ func c01Device(sc *C01) *peer.CLI {
 	d.Noise = sc.Noise
 	d.NoisePct = sc.NoisePct
 	d.NL = sc.NL
+	if sc.SlowEchoUS > 0 {
+		d.LineEchoDelay = map[int]time.Duration{sc.SlowEchoAt: Micro(sc.SlowEchoUS)}
+	}
 
 	return d
 }
